@@ -36,9 +36,9 @@ def main():
 
     # ---- 1. translator --------------------------------------------------------------
     gen_ok, gen_msgs = True, []
-    if getattr(mod, "USES_GEN", False):
+    if getattr(mod, "USES_GEN", None):
         import gen_tables
-        gen_ok, gen_msgs = gen_tables.regenerate()
+        gen_ok, gen_msgs = gen_tables.regenerate(list(mod.USES_GEN))
         if not gen_ok:
             violations.append({"kind": "translator", "what": "; ".join(gen_msgs), "failing_input": False})
 
